@@ -47,6 +47,8 @@ class BundleContainer(object):
 
         self.route: TxRouteItem = None
         self.sender: Callable = None
+        # True if this bundle has been replaced by its fragments for sending
+        self.fragmented: bool = False
 
         self.reload()
 
